@@ -228,6 +228,24 @@ Section P.
     unfold Model.step, Model.deliver, Model.deliver1; cbn.
     destruct (t0 + policy fl <=? nw' + Z.of_N dt)%Z; reflexivity.
   Qed.
+
+  (** a lost connection / failed attempt always goes through the retry delay (no invariant needed) *)
+  Lemma loss_schedules_retry : forall s,
+    (ms s = Connected -> forall j k, nth_error (conns s) j = Some k ->
+       let s' := fst (step s (ODrop j)) in
+       ms s' = Waiting /\ timer s' = Some (now s + policy (S (failed s)))%Z /\ pend s' = pend s)
+    /\ (ms s = Connecting -> pend s <> [] ->
+       let s' := fst (step s OConnFail) in
+       ms s' = Waiting /\ timer s' = Some (now s + policy (S (failed s)))%Z /\ pend s' = removelast (pend s)).
+  Proof.
+    intros s. destruct s as [m rn ca cc tm fl aw sw nw ns nw' na nc pd pp cn tt nf]. cbn [ms conns pend now failed].
+    split.
+    - intros -> j k Hn. unfold Model.step. cbn [conns]. rewrite Hn. unfold Model.pre, Model.deliver, Model.deliver1. cbn.
+      destruct (mem k pp); cbn; auto.
+    - intros -> Hp. unfold Model.step. cbn [pend]. destruct (last_opt pd) eqn:E.
+      + unfold Model.deliver, Model.deliver1. cbn. auto.
+      + exfalso. clear -E Hp. induction pd as [|x [|y r] IH]; cbn in E; try congruence. apply IH; congruence.
+  Qed.
 End P.
 
 (** ---- the findings: witnesses ---- *)
